@@ -158,6 +158,35 @@ func (k *c13kv) CommitBatch(b sorted.BatchMutation) error {
 	return k.KeyValue.CommitBatch(b)
 }
 
+// a scan that fails: Next stops early, the error comes out of Close (how every sorted.Iterator reports a read failure)
+func (k *c13kv) Find(start, end string) sorted.Iterator {
+	return &c13iter{Iterator: k.KeyValue.Find(start, end), inj: k.inj}
+}
+
+type c13iter struct {
+	sorted.Iterator
+	inj    *c13injector
+	failed bool
+}
+
+func (it *c13iter) Next() bool {
+	if it.failed {
+		return false
+	}
+	if it.inj.hit("kv.Find/Next") {
+		it.failed = true
+		return false
+	}
+	return it.Iterator.Next()
+}
+func (it *c13iter) Close() error {
+	err := it.Iterator.Close()
+	if it.failed {
+		return errC13
+	}
+	return err
+}
+
 type c13vfs struct {
 	files.VFS
 	inj *c13injector
